@@ -57,6 +57,11 @@ def gen_case(rng):
         pl = gen.gen_plant(rng, g, 'pl', [spec['assets'][0]['nodes'][0]], f, sorted(spec['prices'])[0], chp=False, simple=True, fuel=False, ramp_profiles=False)
         pl['min_cap'] = max(pl['min_cap'], gen.r2(1. * f)); pl['start_costs'] = gen.pick(rng, [2., 10.]); pl['extra_costs'] = 0.5
         spec['assets'].append(pl)
+    if rng.random() < 0.12:
+        # a storage with mode / holding-time binaries (variables without costs appended to its cost vector)
+        sm = gen.gen_storage(rng, g, 'smip', [spec['assets'][0]['nodes'][0]], f, price_key=None, window=False, mip=True, inflow=False)
+        sm['start_level'] = 0.; sm['end_level'] = 0.; sm['size'] = max(sm['size'], 5.)
+        spec['assets'].insert(int(rng.integers(len(spec['assets']) + 1)), sm)
     spec = gen.strip_private(spec)
     T = len(gen.grid_points(g))
     k = int(gen.pick(rng, [0] + list(range(1, T)) * 3))
